@@ -371,6 +371,8 @@ func c19OwnSpecs(quick bool) []*wSpec {
 			// every kind of operation that derives outputs, started at a counter beyond 300 (what an operation adds to the
 			// stored counter must not depend on how large the counter already is)
 			{Prop: "C19", Name: "C19-high-counter-q", Cfg: two, Init: c19HighCounter(), Menu: c19HighCounterMenu(false), Probe: c19Probe(false), Depth: 2, NoInvariants: true},
+			// proofs handed out, the mint rotates, the wallet notices, the proofs are reclaimed (outputs on the new keyset)
+			{Prop: "C19", Name: "C19-reclaim-after-rotation-q", Cfg: two, Init: []string{"mint|0|8", "send|0|3|0", "rotate|a|0", "mint|0|4", "reclaim|0"}, Menu: c19Menu, Probe: c19Probe(false), Depth: 1, NoInvariants: true},
 			{Prop: "C19", Name: "C19-long-q", Cfg: two, Init: c19LongN(11), Menu: func(*wworld.World) []string { return nil }, Probe: c19Probe(false), Depth: 0, NoInvariants: true},
 		}
 	}
@@ -403,6 +405,7 @@ func c19OwnSpecs(quick bool) []*wSpec {
 			return nil
 		}, Probe: c19Probe(false), Depth: 3, NoInvariants: true},
 		{Prop: "C19", Name: "C19-high-counter", Cfg: two, Init: c19HighCounter(), Menu: c19HighCounterMenu(true), Probe: c19Probe(false), Depth: 3, NoInvariants: true},
+		{Prop: "C19", Name: "C19-reclaim-after-rotation", Cfg: two, Init: []string{"mint|0|8", "send|0|3|0", "rotate|a|0", "mint|0|4", "reclaim|0"}, Menu: c19Menu, Probe: c19Probe(true), Depth: 2, NoInvariants: true},
 		{Prop: "C19", Name: "C19-long", Cfg: two, Init: c19Long(), Menu: func(*wworld.World) []string { return nil }, Probe: c19Probe(true), Depth: 0, NoInvariants: true},
 	}
 }
